@@ -51,6 +51,12 @@ def vpl_ops(ops):
             out.append("    .window(%d, sliding: %d)" % (op[1], op[2]))
         elif k == "twindow":
             out.append("    .window(%ds)" % op[1])
+        elif k == "partition":
+            out.append("    .partition_by(k)")
+        elif k == "session":
+            out.append("    .window(session: %ds)" % op[1])
+        elif k == "sltwindow":
+            out.append("    .window(%ds, sliding: %ds)" % (op[1], op[2]))
         elif k == "agg":
             out.append("    .aggregate(x: sum(x), k: count())")
         elif k == "distinct":
@@ -75,8 +81,13 @@ def vpl_stream(s):
         lines = ["stream %s = %s as a" % (s["name"], s["steps"][0])]
         for i, t in enumerate(s["steps"][1:], 1):
             w = " where k == a.k" if s.get("corr") else ""
-            lines.append("    -> %s%s as %s" % (t, w, al[i]))
+            allk = "all " if (s.get("all") and i == 1 and len(s["steps"]) > 2) else ""
+            lines.append("    -> %s%s%s as %s" % (allk, t, w, al[i]))
         last = al[len(s["steps"]) - 1]
+        if s.get("neg"):
+            lines.append("    .not(%s)" % s["neg"])
+        if s.get("part"):
+            lines.append("    .partition_by(k)")
         lines += vpl_ops(s.get("ops", []))
         if s.get("emit", True):
             lines.append("    .emit(x: a.x, k: %s.k)" % last)
